@@ -1,13 +1,22 @@
 #!/bin/bash
-# usage: mutate.sh <file-in-repo> <python-expr old> <new> <prop...>   -- applies a textual mutation, runs checks, reverts
+# usage: mutate.sh <file-in-repo> <old-text> <new-text> <prop...> [-- extra check args]
+# Applies a textual mutation to a scratch git worktree of /repo (never to /repo itself), runs the checks against it
+# via PYVC_REPO, prints the verdict lines and removes the worktree.
 f=$1; old=$2; new=$3; shift 3
-cd /repo && python3 - "$f" "$old" "$new" <<'PY'
+W=$(mktemp -d /tmp/mut.XXXXXX)
+git -C /repo worktree add --detach -f "$W" HEAD >/dev/null 2>&1 || { echo "worktree failed"; exit 9; }
+# carry over uncommitted changes of /repo's working tree
+(cd /repo && git diff HEAD) | (cd "$W" && git apply 2>/dev/null)
+python3 - "$W/$f" "$old" "$new" <<'PY'
 import sys
 p,old,new=sys.argv[1:4]
 s=open(p).read()
 assert s.count(old)>=1, "pattern not found"
 open(p,'w').write(s.replace(old,new,1))
 PY
-[ $? -eq 0 ] || exit 9
-for p in "$@"; do (cd /verif && ./check $p --no-bounded 2>&1 | grep -E "^\[|VIOLATION|UNDECIDED|CRASH" | head -6); done
-cd /repo && git checkout -- .
+rc=$?
+if [ $rc -eq 0 ]; then
+  for p in "$@"; do (cd /verif && PYVC_REPO="$W" ./check $p ${MUT_ARGS:---no-bounded} 2>&1 | grep -E "^\[|VIOLATION|UNDECIDED|CRASH|KNOWN|STALE" | head -${MUT_LINES:-6}); done
+fi
+git -C /repo worktree remove --force "$W"; rm -rf "$W"
+exit $rc
